@@ -371,8 +371,9 @@ void do_read(struct jls_rd_s *rd, const Op &o, CallRec &c) {
 }
 } // namespace
 
-RunStatus read_dump(const Plan &p, const std::string &path, Dump &d, bool with_cold) {
+RunStatus read_dump(const Plan &p, const std::string &path, Dump &d, bool with_cold, bool retry_failed) {
     g_cur_plan = &p;
+    d.retry.assign(p.reads.size(), CallRec()); for (auto &c : d.retry) c.skipped = true;
     apply_knobs(p);
     d.calls.assign(p.reads.size(), CallRec());
     d.cold.assign(p.reads.size(), CallRec());
@@ -389,6 +390,7 @@ RunStatus read_dump(const Plan &p, const std::string &path, Dump &d, bool with_c
             sim::event(EV_OP_INVOKE, 1, (int64_t) i, 0);
             do_read(rd, p.reads[i], d.calls[i]);
             sim::event(EV_OP_RETURN, 1, (int64_t) i, d.calls[i].rc);
+            if (retry_failed && d.calls[i].rc != 0 && !d.calls[i].skipped) { d.retry[i].skipped = false; do_read(rd, p.reads[i], d.retry[i]); sim::event(EV_OP_RETURN, 2, (int64_t) i, d.retry[i].rc); }
         }
         sim::set_cur_op(-1);
         { struct jls_signal_def_s *sg = nullptr; uint16_t ns = 0; if (0 == jls_rd_signals(rd, &sg, &ns)) for (uint16_t i = 0; i < ns; ++i) d.sig_offset[sg[i].signal_id] = sg[i].sample_id_offset; }
